@@ -24,15 +24,33 @@ constants anywhere), all four script contexts, all key environments and all worl
   T4  descriptors: `pkh/wpkh/sh(wpkh)` ↦ the key; `wsh/sh/sh(wsh)/bare` ↦ the script;
       `tr(k, leaves)` ↦ `k` can sign OR some leaf's condition holds.
 
-Level reached: the property at the level of the specification's satisfaction table.  The step
-from "some witness built from the assets is accepted by Script" to "a canonical one exists"
-(soundness of the table w.r.t. execution: C06 type soundness, C02) is NOT proved here; the full
-statement is `lift_exact_full` below.  The check run executes the table's witness with the Script
-semantics for every world it judges (`J liftsem`).
+  T0' `has_mixed_timelocks_exact`: the `contains_combination` fold is exactly "some structural
+      spending path mixes height and time" (Spec/MsSem.lean); hence `timelock_refusal_justified`,
+      `no_policy_for_mixed_path`; `raw_key_hash_refused`.
+  T3' execution level.  A world fixes signing keys, known preimages and the lock fields.
+      `Available`: every byte string except forgeries and unknown preimages can be pushed;
+      `Realises`: the Script environment is one in which the world lives; `Closed`: the
+      environment itself accepts only what the world holds (C02's `EnvOK`).
+      `lift_exact_forward` (any realising environment): policy holds ⇒ some witness of AVAILABLE
+      byte strings is accepted by `Script.accepts` on the encoded script — C02.mall_complete_table
+      + C01.top_level_sat_sound_exec + "reported locks were accepted" (Lemmas/LiftExec.lean).
+      `lift_exact_reverse` (closed environments): accepted ⇒ policy holds — C02.accepts_imp_satEx.
+      `lift_exact` / `lift_exact_available`: THE PROPERTY, both directions, closed environments.
+      `rx_realises`, `cx_realises`, `cx_closed`, `cx_unknown_preimage`: non-vacuity (worlds with an
+      unknown preimage; a script with a threshold, a hash and a lock).
+
+Level reached: the property verbatim at the level of the flat Script interpreter for closed
+environments (unforgeability / preimage resistance as properties of the environment, as in
+C02).  Open: the same iff for environments in which forgeries exist as byte strings but are not
+`Available` (`lift_exact_open_env_full`, a `def`): its forward half is `lift_exact_forward`.
 -/
 import MsVerif.Lemmas.Lift
+import MsVerif.Lemmas.LiftExec
+import MsVerif.Lemmas.LiftLocks
 import MsVerif.Model.Encode
 import MsVerif.Spec.Script
+import MsVerif.Thm.C01
+import MsVerif.Thm.C02
 
 namespace MsVerif.C07
 open MsVerif MsVerif.Pol MsVerif.Pol.Sem MsVerif.MsSem MsVerif.Lift MsVerif.SatTable
@@ -65,24 +83,24 @@ theorem lift_never_panics (env : KeyEnv) (ctx : Ctx) (ms : Ms) :
 height/time lock combination and without raw key hashes -/
 theorem lift_ok_iff (env : KeyEnv) (ctx : Ctx) (ms : Ms) :
     (∃ p, lift env ctx ms = .ok p) ↔
-      withinResourceLimits env ctx ms = true ∧ hasMixedTimelocks env ctx ms = false
+      withinResourceLimits env ctx ms = true ∧ Lift.hasMixedTimelocks env ctx ms = false
         ∧ noRaw ms = true := by
   rw [lift_eq, ← liftRaw_isSome]
   unfold liftCheck
-  cases withinResourceLimits env ctx ms <;> cases hasMixedTimelocks env ctx ms <;>
+  cases withinResourceLimits env ctx ms <;> cases Lift.hasMixedTimelocks env ctx ms <;>
     cases liftRaw ms <;> simp
 
 /-- the three refusals, in the order the Rust tests them -/
 theorem lift_error_kinds (env : KeyEnv) (ctx : Ctx) (ms : Ms) :
     (withinResourceLimits env ctx ms = false →
         lift env ctx ms = .error .branchExceedResourceLimits)
-    ∧ (withinResourceLimits env ctx ms = true → hasMixedTimelocks env ctx ms = true →
+    ∧ (withinResourceLimits env ctx ms = true → Lift.hasMixedTimelocks env ctx ms = true →
         lift env ctx ms = .error .heightTimelockCombination)
-    ∧ (withinResourceLimits env ctx ms = true → hasMixedTimelocks env ctx ms = false →
+    ∧ (withinResourceLimits env ctx ms = true → Lift.hasMixedTimelocks env ctx ms = false →
         noRaw ms = false → lift env ctx ms = .error .rawDescriptorLift) := by
   rw [lift_eq, ← liftRaw_isSome]
   unfold liftCheck
-  cases withinResourceLimits env ctx ms <;> cases hasMixedTimelocks env ctx ms <;>
+  cases withinResourceLimits env ctx ms <;> cases Lift.hasMixedTimelocks env ctx ms <;>
     cases liftRaw ms <;> simp
 
 /-- what `J liftrefusal` judges about raw key hashes, for the model: a script that mentions one
@@ -98,8 +116,87 @@ theorem raw_key_hash_refused (env : KeyEnv) (ctx : Ctx) (ms : Ms) :
     simp [this] at hm
   · rw [lift_eq, ← liftRaw_isSome]
     unfold liftCheck
-    cases withinResourceLimits env ctx ms <;> cases hasMixedTimelocks env ctx ms <;>
+    cases withinResourceLimits env ctx ms <;> cases Lift.hasMixedTimelocks env ctx ms <;>
       cases liftRaw ms <;> simp
+
+/-! ## T0' — the timelock refusal (what `J liftrefusal` judges, as theorems about the model)
+
+`hasMixedPath` (Spec/MsSem.lean): some spending path — one branch per `or`, both per `and`,
+exactly `k` children per `thresh` — needs a height-based and a time-based lock of one kind.
+`kBounds`: `1 ≤ k ≤ n` at every `thresh`, `k ≤ n` at every multi (what `Threshold::new`
+guarantees). -/
+
+/-- `has_mixed_timelocks` (the `contains_combination` flag folded bottom-up by `ExtData`) is
+EXACT w.r.t. structural spending paths: every script, context and key environment -/
+theorem has_mixed_timelocks_exact (env : KeyEnv) (ctx : Ctx) (ms : Ms)
+    (hk : LiftLocks.kBounds ms = true) :
+    Lift.hasMixedTimelocks env ctx ms = hasMixedPath true ms :=
+  LiftLocks.hasMixedTimelocks_eq env ctx ms hk
+
+/-- `HeightTimelockCombination` is reported only for scripts that have a mixed path -/
+theorem timelock_refusal_justified (env : KeyEnv) (ctx : Ctx) (ms : Ms)
+    (hk : LiftLocks.kBounds ms = true)
+    (h : lift env ctx ms = .error .heightTimelockCombination) : hasMixedPath true ms = true := by
+  rw [← has_mixed_timelocks_exact env ctx ms hk]
+  rw [lift_eq] at h
+  unfold liftCheck at h
+  cases hw : withinResourceLimits env ctx ms <;> cases hm : Lift.hasMixedTimelocks env ctx ms <;>
+    cases hr : liftRaw ms <;> simp [hw, hm, hr] at h ⊢
+
+/-- a script for which a policy is shown has no mixed path — neither a structural one nor
+(a fortiori) a satisfiable one -/
+theorem no_policy_for_mixed_path (env : KeyEnv) (ctx : Ctx) (ms : Ms) (p : Policy)
+    (hk : LiftLocks.kBounds ms = true) (h : lift env ctx ms = .ok p) :
+    hasMixedPath true ms = false ∧ hasMixedPath false ms = false := by
+  have h1 : hasMixedPath true ms = false := by
+    rw [← has_mixed_timelocks_exact env ctx ms hk]
+    exact ((lift_ok_iff env ctx ms).mp ⟨p, h⟩).2.1
+  refine ⟨h1, ?_⟩
+  cases h2 : hasMixedPath false ms
+  · rfl
+  · rw [LiftLocks.hasMixedPath_mono ms h2] at h1; cases h1
+
+mutual
+/-- `kBounds` is part of what C01's `WF` (the constructors' numeric guarantees) says -/
+theorem kBounds_of_WF (ctx : Ctx) : ∀ ms : Ms, SatSpec.WF ctx ms → LiftLocks.kBounds ms = true
+  | .tru, _ | .fls, _ | .pkK _, _ | .pkH _, _ | .rawPkH _, _ | .after _, _ | .older _, _
+  | .hash _ _, _ => by simp [LiftLocks.kBounds]
+  | .multi k ks, h | .sortedMulti k ks, h | .multiA k ks, h | .sortedMultiA k ks, h => by
+    simp only [SatSpec.WF] at h
+    simp only [LiftLocks.kBounds, decide_eq_true_eq]; omega
+  | .alt x, h | .swap x, h | .check x, h | .dupIf x, h | .verify x, h | .nonZero x, h
+  | .zeroNotEqual x, h => by
+    simp only [SatSpec.WF] at h
+    simp only [LiftLocks.kBounds]; exact kBounds_of_WF ctx x h
+  | .andV l r, h | .andB l r, h | .orB l r, h | .orD l r, h | .orC l r, h | .orI l r, h => by
+    simp only [SatSpec.WF] at h
+    simp only [LiftLocks.kBounds, Bool.and_eq_true]
+    exact ⟨kBounds_of_WF ctx l h.1, kBounds_of_WF ctx r h.2⟩
+  | .andOr a b c, h => by
+    simp only [SatSpec.WF] at h
+    simp only [LiftLocks.kBounds, Bool.and_eq_true]
+    exact ⟨⟨kBounds_of_WF ctx a h.1, kBounds_of_WF ctx b h.2.1⟩, kBounds_of_WF ctx c h.2.2⟩
+  | .thresh k xs, h => by
+    simp only [SatSpec.WF] at h
+    simp only [LiftLocks.kBounds, Bool.and_eq_true, decide_eq_true_eq]
+    exact ⟨⟨h.1, h.2.1⟩, kBoundsL_of_WFs ctx xs h.2.2.2⟩
+theorem kBoundsL_of_WFs (ctx : Ctx) : ∀ xs : MsList, SatSpec.WFs ctx xs → LiftLocks.kBoundsL xs = true
+  | .nil, _ => by simp [LiftLocks.kBoundsL]
+  | .cons x xs, h => by
+    simp only [SatSpec.WFs] at h
+    simp only [LiftLocks.kBoundsL, Bool.and_eq_true]
+    exact ⟨kBounds_of_WF ctx x h.1, kBoundsL_of_WFs ctx xs h.2⟩
+end
+
+/-- the hypothesis is satisfiable by nested scripts with thresholds and locks of both units, the
+refusal is reachable, and `kBounds` is needed: `multi(3,K0,K1)` (not constructible through
+`Threshold::new`) has no path at all, while the fold still reports "no combination" -/
+example : LiftLocks.kBounds (.thresh 2 (.cons (.check (.pkK 0)) (.cons (.alt (.dupIf (.verify
+    (.older 10)))) (.cons (.alt (.dupIf (.verify (.older 4194305)))) .nil)))) = true := by decide
+example : hasMixedPath true (.thresh 2 (.cons (.check (.pkK 0)) (.cons (.alt (.dupIf (.verify
+    (.older 10)))) (.cons (.alt (.dupIf (.verify (.older 4194305)))) .nil)))) = true := by decide
+example : hasMixedPath true (.thresh 1 (.cons (.check (.pkK 0)) (.cons (.alt (.dupIf (.verify
+    (.older 10)))) (.cons (.alt (.dupIf (.verify (.older 4194305)))) .nil)))) = false := by decide
 
 /-! ## T1 — the lifted policy has the script's truth table -/
 
@@ -152,38 +249,583 @@ theorem lift_iff_canonical_satisfaction (env : KeyEnv) (ctx : Ctx) (ms : Ms) (p 
     holds W p = satEx (availOfWorld W) ms := by
   rw [lift_sem env ctx ms p h W, table_eq_sem W ms τ ht (lift_ok_noRaw env ctx ms p h)]
 
-/-- The property verbatim.  `can` is the set of byte strings the spender is able to put on the
-stack, `senv` the Script environment of the spending transaction; `Realises` ties both to the
-world: same lock fields (input not final, version ≥ 2), a valid signature is producible exactly
-for the keys the world can sign for, a 32-byte preimage exactly for the hashes it knows. -/
-structure Realises (kenv : KeyEnv) (senv : Script.Env) (can : Bytes → Prop) (W : World) : Prop where
+/-! ## T3' — execution level: the lifted policy and `Script.accepts`
+
+A world fixes which keys can sign, which hash preimages are known, and the transaction's lock
+fields.  What the spender can put on the stack is then determined: EVERY byte string, except
+signatures (valid in the spending transaction) for keys the world cannot sign for
+(unforgeability) and preimages of committed hash values the world does not know (preimage
+resistance). -/
+
+/-- byte strings a spender in world `W` can push, given the transaction's Script environment -/
+def Available (kenv : KeyEnv) (senv : Script.Env) (W : World) (b : Bytes) : Prop :=
+  (∀ k, senv.sigOk (kenv.ser k) b = true → W.canSign k = true) ∧
+  (∀ kind h, senv.hash (SatSpec.hashOpOf kind) b = kenv.hashVal kind h →
+      W.preimage (polHash kind) h = true)
+
+/-- The Script environment `senv` of the spending transaction is one in which world `W` lives:
+same lock fields (input not final, version ≥ 2); interpreter flags of the context with resource
+limits off (limits are C09's subject); keys well-formed for the context; for every key the
+world can sign for SOME valid signature is available, for every preimage it knows SOME 32-byte
+preimage is; the non-secret constants of a witness (empty vector, `1`, 32 zero bytes, public
+keys) are available, i.e. are no forgeries / unknown preimages; no committed hash value is the
+hash of 32 zero bytes (the canonical hash dissatisfaction).  Nothing is said about unknown
+preimages or keys that cannot sign: by `Available` such strings simply cannot be pushed. -/
+structure Realises (kenv : KeyEnv) (ctx : Ctx) (senv : Script.Env) (W : World) : Prop where
+  envOk : SatSpec.EnvOk senv ctx
   lockTime : senv.nLockTime = W.nLockTime
   sequence : senv.nSequence = W.nSequence
   notFinal : W.nSequence ≠ Script.SEQ_FINAL
+  seqU32 : W.nSequence < 4294967296
   version : senv.txVersion ≥ 2
-  sigs : ∀ k, W.canSign k = true ↔ ∃ sg, can sg ∧ sg ≠ [] ∧ senv.sigOk (kenv.ser k) sg = true
-  pres : ∀ kind h, W.preimage (polHash kind) h = true ↔
-    ∃ x, can x ∧ x.length = 32
-      ∧ senv.hash (match kind with
-          | .sha256 => .sha256 | .hash256 => .hash256 | .ripemd160 => .ripemd160
-          | .hash160 => .hash160) x = kenv.hashVal kind h
-  /-- everything that is not a secret is available -/
-  publicData : ∀ b, (∀ pk, senv.sigOk pk b = false) → can b
+  keyShape : ∀ k, Script.pubkeyOk senv (kenv.ser k) = true
+  keyLen : ∀ k, (kenv.ser k).length < 2147483648
+  pkh : ∀ k, senv.hash .hash160 (kenv.ser k) = kenv.pkh k
+  signs : ∀ k, W.canSign k = true →
+    ∃ sg, Available kenv senv W sg ∧ sg ≠ [] ∧ sg.length < 2147483648
+      ∧ senv.sigOk (kenv.ser k) sg = true
+  knows : ∀ kind h, W.preimage (polHash kind) h = true →
+    ∃ x, Available kenv senv W x ∧ x.length = 32
+      ∧ senv.hash (SatSpec.hashOpOf kind) x = kenv.hashVal kind h
+  publicData : Available kenv senv W [] ∧ Available kenv senv W [1]
+    ∧ Available kenv senv W (List.replicate 32 0) ∧ ∀ k, Available kenv senv W (kenv.ser k)
+  zeroNoPreimage : ∀ kind h,
+    senv.hash (SatSpec.hashOpOf kind) (List.replicate 32 0) ≠ kenv.hashVal kind h
 
-/-- full strength: the lifted policy holds iff SOME witness built from the world's assets makes
-the encoded script succeed under the Script semantics -/
-def lift_exact_full : Prop :=
-  ∀ (kenv : KeyEnv) (ctx : Ctx) (ms : Ms) (p : Policy) (τ : Ty) (senv : Script.Env)
-    (can : Bytes → Prop) (W : World),
-    lift kenv ctx ms = .ok p → typeOf ms = some τ → τ.corr.base = .B →
-    Realises kenv senv can W →
-    (holds W p = true ↔
-      ∃ wit : List Bytes, (∀ b ∈ wit, can b) ∧ Script.accepts senv (encode kenv ctx ms) wit = true)
+/-- some witness made of available byte strings is accepted by the encoded script -/
+def Spendable (kenv : KeyEnv) (ctx : Ctx) (senv : Script.Env) (W : World) (ms : Ms) : Prop :=
+  ∃ wit : List Bytes, (∀ b ∈ wit, Available kenv senv W b)
+    ∧ Script.accepts senv (encode kenv ctx ms) wit = true
 
-/- `lift_iff_canonical_satisfaction` is the `_partial` form of `lift_exact_full`: missing are
-(→) "the table's canonical witness is accepted by `Script.run`" (C01/C02 soundness of the table,
-checked on every judged case by executing `satWit`) and (←) "an accepted witness implies a
-canonical satisfaction" (C06 type soundness). -/
+section forward
+open MsVerif.LiftExec MsVerif.SatSpec
+
+/-- `Placeholder::satisfy_self` for a spender living in `W` (the signatures / preimages whose
+existence `Realises` asserts) -/
+noncomputable def sigmaOf {kenv : KeyEnv} {ctx : Ctx} {senv : Script.Env} {W : World}
+    (R : Realises kenv ctx senv W) : Ph → Bytes
+  | .pushOne => [1]
+  | .pushZero => []
+  | .hashDissat => List.replicate 32 0
+  | .pubkey k _ => kenv.ser k
+  | .ecdsaSig k => if h : W.canSign k = true then Classical.choose (R.signs k h) else []
+  | .schnorrSig k _ => if h : W.canSign k = true then Classical.choose (R.signs k h) else []
+  | .preimage kind x =>
+    if h : W.preimage (polHash kind) x = true then Classical.choose (R.knows kind x h) else []
+  | .pubkeyHash _ _ | .ecdsaSigPkh _ | .schnorrSigPkh _ _ => []
+
+variable {kenv : KeyEnv} {ctx : Ctx} {senv : Script.Env} {W : World}
+
+theorem sigmaOf_available (R : Realises kenv ctx senv W) (p : Ph) :
+    Available kenv senv W (sigmaOf R p) := by
+  cases p with
+  | pushOne => exact R.publicData.2.1
+  | pushZero => exact R.publicData.1
+  | hashDissat => exact R.publicData.2.2.1
+  | pubkey k _ => exact R.publicData.2.2.2 k
+  | ecdsaSig k =>
+    simp only [sigmaOf]
+    split
+    · rename_i h; exact (Classical.choose_spec (R.signs k h)).1
+    · exact R.publicData.1
+  | schnorrSig k _ =>
+    simp only [sigmaOf]
+    split
+    · rename_i h; exact (Classical.choose_spec (R.signs k h)).1
+    · exact R.publicData.1
+  | preimage kind x =>
+    simp only [sigmaOf]
+    split
+    · rename_i h; exact (Classical.choose_spec (R.knows kind x h)).1
+    · exact R.publicData.1
+  | pubkeyHash _ _ => exact R.publicData.1
+  | ecdsaSigPkh _ => exact R.publicData.1
+  | schnorrSigPkh _ _ => exact R.publicData.1
+
+theorem sigmaOf_size (R : Realises kenv ctx senv W) (p : Ph) :
+    (sigmaOf R p).length < 2147483648 := by
+  cases p with
+  | pushOne => simp [sigmaOf]
+  | pushZero => simp [sigmaOf]
+  | hashDissat => simp [sigmaOf]
+  | pubkey k _ => exact R.keyLen k
+  | ecdsaSig k =>
+    simp only [sigmaOf]
+    split
+    · rename_i h; exact (Classical.choose_spec (R.signs k h)).2.2.1
+    · simp
+  | schnorrSig k _ =>
+    simp only [sigmaOf]
+    split
+    · rename_i h; exact (Classical.choose_spec (R.signs k h)).2.2.1
+    · simp
+  | preimage kind x =>
+    simp only [sigmaOf]
+    split
+    · rename_i h; rw [(Classical.choose_spec (R.knows kind x h)).2.1]; decide
+    · simp
+  | pubkeyHash _ _ => simp [sigmaOf]
+  | ecdsaSigPkh _ => simp [sigmaOf]
+  | schnorrSigPkh _ _ => simp [sigmaOf]
+
+/-- C01's `Agrees`: what the spender of world `W` hands to the satisfier is real -/
+theorem agrees_of_realises (R : Realises kenv ctx senv W) :
+    Agrees senv kenv (assetsOfWorld W) (sigmaOf R) where
+  pushOne := rfl
+  pushZero := rfl
+  hashDissat := rfl
+  keyShape := R.keyShape
+  pkh := R.pkh
+  pubkey := fun _ _ => rfl
+  ecdsa := by
+    intro k hk
+    have hk' : W.canSign k = true := hk
+    have hs := Classical.choose_spec (R.signs k hk')
+    simp only [sigmaOf, hk', dite_true]
+    exact ⟨hs.2.1, hs.2.2.2⟩
+  schnorr := by
+    intro k sz hk
+    have hk' : W.canSign k = true := by
+      simp only [assetsOfWorld] at hk
+      by_cases h : W.canSign k = true
+      · exact h
+      · simp [h] at hk
+    have hs := Classical.choose_spec (R.signs k hk')
+    simp only [sigmaOf, hk', dite_true]
+    exact ⟨hs.2.1, hs.2.2.2⟩
+  rawPk := by intro h sz hh; simp [assetsOfWorld] at hh
+  rawEcdsa := by intro h pk sz hh; simp [assetsOfWorld] at hh
+  rawSchnorr := by intro h pk sz sz' hh; simp [assetsOfWorld] at hh
+  preimage := by
+    intro kind h hk
+    have hk' : W.preimage (polHash kind) h = true := hk
+    have hs := Classical.choose_spec (R.knows kind h hk')
+    simp only [sigmaOf, hk', dite_true]
+    exact ⟨hs.2.1, hs.2.2⟩
+  zeroNoPreimage := R.zeroNoPreimage
+  sizeOk := sigmaOf_size R
+
+/-- the table's view of the satisfier's assets IS the world's assets -/
+theorem avail_assetsOfWorld (W : World) (ctx : Ctx) :
+    C02.avail (assetsOfWorld W) ctx = availOfWorld W := by
+  unfold C02.avail availOfWorld assetsOfWorld
+  simp only [csvOk_relCanon]
+  cases ctx.sigType <;> simp
+  · funext k; by_cases h : W.canSign k = true <;> simp [h]
+
+/-- the locks a satisfaction of the world's spender reports are met by the world's transaction -/
+theorem locksMet_of_realises (R : Realises kenv ctx senv W) (cfg : SatCfg)
+    (ha : cfg.assets = assetsOfWorld W) (ms : Ms) : LocksMet senv (satDissat cfg ms).sat := by
+  have hr := reported_locks_accepted cfg ms
+  rw [ha] at hr
+  have hnf : senv.nSequence ≠ Script.SEQ_FINAL := by rw [R.sequence]; exact R.notFinal
+  constructor
+  · intro n hn
+    have h := hr.1 n hn
+    simp only [assetsOfWorld] at h
+    rw [← R.lockTime] at h
+    exact checkLockTime_of_cltvOk senv n hnf h
+  · intro n hn
+    have h := hr.2 n hn
+    simp only [assetsOfWorld, csvOk_relCanon] at h
+    rw [← R.sequence] at h
+    exact checkSequence_of_csvOk senv n R.version h
+
+/-- **Forward half of the property at execution level.**  If the policy `lift` reports holds
+in world `W`, then SOME witness consisting of byte strings available in `W` makes the encoded
+script succeed under the Script semantics of a transaction realising `W` — the policy invents no
+spending path.  From `lift_sem` + `table_eq_sem` (this file), completeness of the malleable
+satisfier w.r.t. the table (`C02.mall_complete_table`) and soundness of every satisfaction on
+the flat interpreter (`C01.top_level_sat_sound_exec`).  Hypotheses beyond `Realises`: `WF`,
+`ThreshKOK` and `SmallScript` — numeric side conditions the Rust constructors guarantee
+(`1 ≤ k ≤ n`, lock values in `1 … 2^31-1`, `multi` only outside Tap with ≤ 20 keys; fewer than
+2^55 witness items). -/
+theorem lift_exact_forward (kenv : KeyEnv) (ctx : Ctx) (ms : Ms) (p : Policy) (τ : Ty)
+    (senv : Script.Env) (W : World)
+    (hl : lift kenv ctx ms = .ok p) (ht : typeOf ms = some τ) (hB : τ.corr.base = .B)
+    (hwf : WF ctx ms) (hk : C02.ThreshKOK ms) (hsm : C02.SmallScript ms)
+    (R : Realises kenv ctx senv W) (hh : holds W p = true) : Spendable kenv ctx senv W ms := by
+  have hex : satEx (availOfWorld W) ms = true := by
+    rw [← lift_iff_canonical_satisfaction kenv ctx ms p τ hl ht W]; exact hh
+  rw [← avail_assetsOfWorld W ctx] at hex
+  have hlk : C02.NoMixedLocks (assetsOfWorld W) ms := fun s _ t _ => lockCompat_world W s t
+  have hsz : Complete.SigSizesOK (assetsOfWorld W) := by
+    constructor
+    · intro k sz h
+      simp only [assetsOfWorld] at h
+      by_cases hc : W.canSign k = true
+      · simp [hc] at h; omega
+      · simp [hc] at h
+    · intro h pr hp; simp [assetsOfWorld] at hp
+  obtain ⟨w, hw⟩ := (C02.mall_complete_table kenv ctx true (assetsOfWorld W) ms hk hlk hsz hsm).1 hex
+  let cfg : SatCfg := ⟨kenv, ctx, true, true, assetsOfWorld W⟩
+  have hacc := C01.top_level_sat_sound_exec (env := senv) (σ := sigmaOf R) (cfg := cfg) R.envOk
+    (agrees_of_realises R) ms τ hwf ht hB w hw (locksMet_of_realises R cfg rfl ms)
+  refine ⟨stk (sigmaOf R) w, ?_, hacc⟩
+  intro b hb
+  simp only [stk, List.mem_reverse, List.mem_map] at hb
+  obtain ⟨ph, _, rfl⟩ := hb
+  exact sigmaOf_available R ph
+
+end forward
+
+/-! ### Non-vacuity: a world with an UNKNOWN preimage that is realised, and a script with a
+threshold, a hash and a lock to which `lift_exact_forward` applies -/
+
+/-- three distinguishable compressed-looking keys (`0`, `1`, everything else) -/
+def rxSer (k : Key) : Bytes :=
+  2 :: List.replicate 32 (if k == 0 then 0 else if k == 1 then 1 else 2)
+/-- hash atom `0` commits to `1^32`, every other hash atom to `2^32`; hashing is the identity -/
+def rxKenv : KeyEnv :=
+  ⟨rxSer, rxSer, rxSer, fun _ => [], fun _ h => List.replicate 32 (if h == 0 then 1 else 2)⟩
+/-- P2WSH flags, limits off; the only valid signature for `pk` is `0x30 ‖ pk` -/
+def rxSenv : Script.Env :=
+  { flags := ⟨false, true, true, true, true, false, false⟩
+    sigOk := fun pk sg => sg == 0x30 :: pk
+    hash := fun _ x => x
+    nLockTime := 0, nSequence := 144, txVersion := 2 }
+/-- keys 0 and 1 can sign, ONLY the preimage of hash atom 0 is known (that of every other hash
+atom, `2^32`, is not — and is therefore not `Available`) -/
+def rxWorld : World := ⟨fun k => k == 0 || k == 1, fun _ h => h == 0, 0, 144⟩
+
+theorem rx_avail_of_len (b : Bytes) (h1 : b.length ≠ 34) (h2 : b.length ≠ 32) :
+    Available rxKenv rxSenv rxWorld b := by
+  constructor
+  · intro k hk
+    simp only [rxSenv, rxKenv, beq_iff_eq] at hk
+    subst hk
+    simp [rxSer] at h1
+  · intro kind h hh
+    simp only [rxSenv, rxKenv] at hh
+    subst hh
+    simp at h2
+
+theorem rx_unknown_preimage_unavailable :
+    rxWorld.preimage .sha256 1 = false ∧ ¬ Available rxKenv rxSenv rxWorld (List.replicate 32 2) := by
+  refine ⟨rfl, fun h => ?_⟩
+  have := h.2 .sha256 1 rfl
+  simp [rxWorld, polHash] at this
+
+theorem rx_realises : Realises rxKenv .segwitv0 rxSenv rxWorld where
+  envOk := ⟨rfl, rfl, by decide⟩
+  lockTime := rfl
+  sequence := rfl
+  notFinal := by decide
+  seqU32 := by decide
+  version := by decide
+  keyShape := by intro k; simp [Script.pubkeyOk, rxSenv, rxKenv, rxSer]
+  keyLen := by intro k; simp [rxKenv, rxSer]
+  pkh := fun _ => rfl
+  signs := by
+    intro k hk
+    refine ⟨0x30 :: rxSer k, ⟨?_, ?_⟩, by simp, by simp [rxSer], by simp [rxSenv, rxKenv]⟩
+    · intro k' hk'
+      simp only [rxSenv, rxKenv, beq_iff_eq, List.cons.injEq, true_and] at hk'
+      simp only [rxWorld, Bool.or_eq_true, beq_iff_eq] at hk ⊢
+      simp only [rxSer, List.cons.injEq, true_and] at hk'
+      have h0 := congrArg (fun l => l.head?) hk'
+      simp only [List.replicate, List.head?_cons, Option.some.injEq] at h0
+      rcases hk with rfl | rfl
+      · by_cases a : k' = 0
+        · exact Or.inl a
+        · by_cases b : k' = 1
+          · exact Or.inr b
+          · simp [a, b] at h0
+      · by_cases a : k' = 0
+        · exact Or.inl a
+        · by_cases b : k' = 1
+          · exact Or.inr b
+          · simp [a, b] at h0
+    · intro kind h hh
+      simp only [rxSenv, rxKenv] at hh
+      have := congrArg List.length hh
+      simp [rxSer] at this
+  knows := by
+    intro kind h hk
+    simp only [rxWorld, beq_iff_eq] at hk
+    subst hk
+    refine ⟨List.replicate 32 1, ⟨?_, ?_⟩, by simp, by simp [rxSenv, rxKenv]⟩
+    · intro k' hk'
+      simp only [rxSenv, rxKenv, beq_iff_eq] at hk'
+      have := congrArg List.length hk'
+      simp [rxSer] at this
+    · intro kind' h' hh
+      simp only [rxSenv, rxKenv] at hh
+      simp only [rxWorld, beq_iff_eq]
+      by_cases a : h' = 0
+      · exact a
+      · have h0 := congrArg (fun l => l.head?) hh
+        simp [List.replicate, a] at h0
+  publicData := by
+    refine ⟨rx_avail_of_len _ (by simp) (by simp), rx_avail_of_len _ (by simp) (by simp), ?_,
+      fun k => rx_avail_of_len _ (by simp [rxKenv, rxSer]) (by simp [rxKenv, rxSer])⟩
+    constructor
+    · intro k hk
+      simp only [rxSenv, rxKenv, beq_iff_eq] at hk
+      have := congrArg List.length hk
+      simp [rxSer] at this
+    · intro kind h hh
+      simp only [rxSenv, rxKenv] at hh
+      have h0 := congrArg (fun l => l.head?) hh
+      by_cases a : h = 0 <;> simp [List.replicate, a] at h0
+  zeroNoPreimage := by
+    intro kind h hh
+    simp only [rxSenv, rxKenv] at hh
+    have h0 := congrArg (fun l => l.head?) hh
+    by_cases a : h = 0 <;> simp [List.replicate, a] at h0
+
+/-- `and_v(v:thresh(2, pk(0), s:pk(1), a:sha256(H0)), older(144))` -/
+def rxMs : Ms :=
+  .andV (.verify (.thresh 2 (.cons (.check (.pkK 0)) (.cons (.swap (.check (.pkK 1)))
+    (.cons (.alt (.hash .sha256 0)) .nil))))) (.older 144)
+
+example : Spendable rxKenv .segwitv0 rxSenv rxWorld rxMs :=
+  lift_exact_forward rxKenv .segwitv0 rxMs
+    (.thresh 2 [.thresh 2 [.atom (.key 0), .atom (.key 1), .atom (.hash .sha256 0)],
+                .atom (.older 144)])
+    ⟨⟨.B, .any, false, false⟩, ⟨.none, true, false⟩⟩ rxSenv rxWorld
+    (by rfl) (by decide) rfl
+    (by simp [rxMs, SatSpec.WF, SatSpec.WFs, MsList.length])
+    (by decide)
+    (by simp [rxMs, C02.SmallScript, Complete.itemBound, Complete.itemBounds])
+    rx_realises (by decide)
+
+/-! ### both directions
+
+The reverse direction is C02's `accepts_imp_satEx` (an ACCEPTED witness of a well-typed `B` script
+implies a canonical satisfaction in the table).  It speaks about environments that accept only
+what the spender holds — unforgeability and preimage resistance as properties of the ENVIRONMENT
+(`Closed`): no byte string at all verifies as a signature for a key the world cannot sign for
+(also not through a `pk_h` commitment), none of length 32 hashes to a committed value whose
+preimage the world does not know.  In such an environment an unknown preimage is one that no
+string hashes to, and every byte string is harmless to offer: "a witness built from the world's
+assets" is any witness. -/
+
+/-- the environment accepts only what the world holds (`AccSat.EnvOK`, in world terms) -/
+structure Closed (kenv : KeyEnv) (senv : Script.Env) (W : World) : Prop where
+  sigK : ∀ k s, senv.sigOk (kenv.ser k) s = true → W.canSign k = true
+  sigH : ∀ k pk s, senv.hash .hash160 pk = kenv.pkh k → senv.sigOk pk s = true →
+    W.canSign k = true
+  pre : ∀ kind h x, x.length = 32 → senv.hash (SatSpec.hashOpOf kind) x = kenv.hashVal kind h →
+    W.preimage (polHash kind) h = true
+
+/-- `Realises` + `Closed` give C02's `EnvOK` for the world's availability (the lock clauses come
+from the equal lock fields) -/
+theorem envOK_of_closed {kenv : KeyEnv} {ctx : Ctx} {senv : Script.Env} {W : World}
+    (R : Realises kenv ctx senv W) (hc : Closed kenv senv W) :
+    AccSat.EnvOK senv kenv (availOfWorld W) where
+  sigK := hc.sigK
+  sigH := hc.sigH
+  pre := hc.pre
+  after := by
+    intro n h
+    have := LiftExec.cltvOk_of_checkLockTime senv n h
+    rw [R.lockTime] at this
+    exact this
+  older := by
+    intro n h
+    have hu : senv.nSequence < 4294967296 := by rw [R.sequence]; exact R.seqU32
+    have := LiftExec.csvOk_of_checkSequence senv n hu h
+    rw [R.sequence] at this
+    exact this
+
+/-- in a closed environment nothing is unavailable except unknown preimages of the wrong
+length (which hash opcodes reject anyway) -/
+theorem closed_available {kenv : KeyEnv} {senv : Script.Env} {W : World}
+    (hc : Closed kenv senv W) (b : Bytes) (hb : b.length = 32 ∨ ∀ kind h,
+      senv.hash (SatSpec.hashOpOf kind) b ≠ kenv.hashVal kind h) : Available kenv senv W b :=
+  ⟨fun k h => hc.sigK k b h, fun kind h hh => by
+    rcases hb with hb | hb
+    · exact hc.pre kind h b hb hh
+    · exact absurd hh (hb kind h)⟩
+
+/-- **Reverse half at execution level**: a witness (ANY byte strings) that the encoded script
+accepts in a closed environment realising `W` ⇒ the lifted policy holds in `W` — the policy
+hides no spending path.  C02.`accepts_imp_satEx` + `table_eq_sem` + `lift_sem`. -/
+theorem lift_exact_reverse (kenv : KeyEnv) (ctx : Ctx) (ms : Ms) (p : Policy) (τ : Ty)
+    (senv : Script.Env) (W : World)
+    (hl : lift kenv ctx ms = .ok p) (ht : typeOf ms = some τ) (hB : τ.corr.base = .B)
+    (hwa : AccSat.WF ms) (R : Realises kenv ctx senv W) (hc : Closed kenv senv W)
+    (wit : List Bytes) (hacc : Script.accepts senv (encode kenv ctx ms) wit = true) :
+    holds W p = true := by
+  rw [lift_iff_canonical_satisfaction kenv ctx ms p τ hl ht W]
+  exact C02.accepts_imp_satEx R.envOk.stackLimits (envOK_of_closed R hc) ctx ms hwa τ ht hB wit hacc
+
+/-- **The property at execution level, both directions proved**: for a script that `lift`
+accepts, in every world and every closed Script environment realising it, the reported policy
+holds EXACTLY when some witness makes the encoded script succeed (CLEANSTACK acceptance by the
+flat interpreter).  Side conditions (`WF`, `AccSat.WF`, `ThreshKOK`, `SmallScript`) are
+decidable invariants of the library's `Threshold` / lock-time / context types. -/
+theorem lift_exact (kenv : KeyEnv) (ctx : Ctx) (ms : Ms) (p : Policy) (τ : Ty)
+    (senv : Script.Env) (W : World)
+    (hl : lift kenv ctx ms = .ok p) (ht : typeOf ms = some τ) (hB : τ.corr.base = .B)
+    (hwf : SatSpec.WF ctx ms) (hwa : AccSat.WF ms) (hk : C02.ThreshKOK ms)
+    (hsm : C02.SmallScript ms) (R : Realises kenv ctx senv W) (hc : Closed kenv senv W) :
+    holds W p = true ↔ ∃ wit : List Bytes, Script.accepts senv (encode kenv ctx ms) wit = true := by
+  constructor
+  · intro hh
+    obtain ⟨wit, _, hacc⟩ := lift_exact_forward kenv ctx ms p τ senv W hl ht hB hwf hk hsm R hh
+    exact ⟨wit, hacc⟩
+  · rintro ⟨wit, hacc⟩
+    exact lift_exact_reverse kenv ctx ms p τ senv W hl ht hB hwa R hc wit hacc
+
+/-- … and the witness can always be taken from the world's available byte strings -/
+theorem lift_exact_available (kenv : KeyEnv) (ctx : Ctx) (ms : Ms) (p : Policy) (τ : Ty)
+    (senv : Script.Env) (W : World)
+    (hl : lift kenv ctx ms = .ok p) (ht : typeOf ms = some τ) (hB : τ.corr.base = .B)
+    (hwf : SatSpec.WF ctx ms) (hwa : AccSat.WF ms) (hk : C02.ThreshKOK ms)
+    (hsm : C02.SmallScript ms) (R : Realises kenv ctx senv W) (hc : Closed kenv senv W) :
+    holds W p = true ↔ Spendable kenv ctx senv W ms :=
+  ⟨lift_exact_forward kenv ctx ms p τ senv W hl ht hB hwf hk hsm R,
+   fun ⟨wit, _, hacc⟩ => lift_exact_reverse kenv ctx ms p τ senv W hl ht hB hwa R hc wit hacc⟩
+
+/-- The same iff WITHOUT `Closed` (environments in which forgeries / unknown preimages exist as
+byte strings but are not `Available`): forward half = `lift_exact_forward`; the reverse half
+would need an execution invariant ("only witness elements reach CHECKSIG / hash opcodes as
+signatures / preimages") on top of C02's theorem and is not proved. -/
+def lift_exact_open_env_full : Prop :=
+  ∀ (kenv : KeyEnv) (ctx : Ctx) (ms : Ms) (p : Policy) (τ : Ty) (senv : Script.Env) (W : World),
+    lift kenv ctx ms = .ok p → typeOf ms = some τ → τ.corr.base = .B → SatSpec.WF ctx ms →
+    AccSat.WF ms → C02.ThreshKOK ms → C02.SmallScript ms → Realises kenv ctx senv W →
+    (holds W p = true ↔ Spendable kenv ctx senv W ms)
+
+/-! ### Non-vacuity of `Realises ∧ Closed`: a closed environment with an unknown preimage -/
+
+/-- as `rxSenv`, but only keys 0 / 1 have a valid signature and nothing hashes to `2^32` (the
+committed value of every hash atom other than 0): its preimage is unknown to everybody -/
+def cxSenv : Script.Env :=
+  { flags := ⟨false, true, true, true, true, false, false⟩
+    sigOk := fun pk sg => sg == 0x30 :: pk && (pk == rxSer 0 || pk == rxSer 1)
+    hash := fun _ x => if x == List.replicate 32 2 then [] else x
+    nLockTime := 0, nSequence := 144, txVersion := 2 }
+
+theorem cx_hash_ne32 (op : Script.HashOp) (x : Bytes) (h : x.length ≠ 32) :
+    cxSenv.hash op x = x := by
+  have hb : (x == List.replicate 32 (2 : UInt8)) = false := by
+    apply beq_false_of_ne
+    intro e; apply h; rw [e]; simp
+  simp only [cxSenv, hb, Bool.false_eq_true, if_false]
+
+theorem rxSer_len (k : Key) : (rxSer k).length = 33 := by simp [rxSer]
+
+theorem rx_hashVal_len (kind : HashKind) (h : Nat) : (rxKenv.hashVal kind h).length = 32 := by
+  simp [rxKenv]
+
+theorem rxSer_inj01 (k : Key) (h : rxSer k = rxSer 0 ∨ rxSer k = rxSer 1) : k = 0 ∨ k = 1 := by
+  simp only [rxSer, List.cons.injEq, true_and] at h
+  by_cases a : k = 0
+  · exact Or.inl a
+  · by_cases b : k = 1
+    · exact Or.inr b
+    · exfalso
+      rcases h with h | h
+      · have h0 := congrArg (fun l => l.head?) h
+        simp [List.replicate, a, b] at h0
+      · have h0 := congrArg (fun l => l.head?) h
+        simp [List.replicate, a, b] at h0
+
+theorem cx_closed : Closed rxKenv cxSenv rxWorld where
+  sigK := by
+    intro k s h
+    simp only [cxSenv, rxKenv, Bool.and_eq_true, Bool.or_eq_true, beq_iff_eq] at h
+    simp only [rxWorld, Bool.or_eq_true, beq_iff_eq]
+    exact rxSer_inj01 k h.2
+  sigH := by
+    intro k pk s hh h
+    have h' : pk = rxSer 0 ∨ pk = rxSer 1 := by
+      simp only [cxSenv, Bool.and_eq_true, Bool.or_eq_true, beq_iff_eq] at h
+      exact h.2
+    simp only [rxWorld, Bool.or_eq_true, beq_iff_eq]
+    apply rxSer_inj01 k
+    have hpk : pk.length ≠ 32 := by rcases h' with rfl | rfl <;> simp [rxSer_len]
+    rw [cx_hash_ne32 _ pk hpk] at hh
+    have hh' : pk = rxSer k := hh
+    rcases h' with h2 | h2
+    · exact Or.inl (hh'.symm.trans h2)
+    · exact Or.inr (hh'.symm.trans h2)
+  pre := by
+    intro kind h x _ hh
+    simp only [cxSenv, rxKenv] at hh
+    simp only [rxWorld, beq_iff_eq]
+    by_cases a : h = 0
+    · exact a
+    · exfalso
+      by_cases hx : x = List.replicate 32 2
+      · simp [hx, a] at hh
+      · simp only [beq_iff_eq, hx, if_false, a] at hh
+
+theorem cx_avail_of_len (b : Bytes) (h2 : b.length ≠ 32) :
+    Available rxKenv cxSenv rxWorld b :=
+  closed_available cx_closed b (Or.inr (by
+    intro kind h hh
+    rw [cx_hash_ne32 _ b h2] at hh
+    apply h2
+    rw [hh, rx_hashVal_len]))
+
+theorem cx_realises : Realises rxKenv .segwitv0 cxSenv rxWorld where
+  envOk := ⟨rfl, rfl, by decide⟩
+  lockTime := rfl
+  sequence := rfl
+  notFinal := by decide
+  seqU32 := by decide
+  version := by decide
+  keyShape := by intro k; simp [Script.pubkeyOk, cxSenv, rxKenv, rxSer]
+  keyLen := by intro k; simp [rxKenv, rxSer]
+  pkh := fun k => cx_hash_ne32 _ (rxSer k) (by simp [rxSer_len])
+  signs := by
+    intro k hk
+    simp only [rxWorld, Bool.or_eq_true, beq_iff_eq] at hk
+    refine ⟨0x30 :: rxSer k, cx_avail_of_len _ (by simp [rxSer_len]), by simp,
+      by simp [rxSer_len], ?_⟩
+    simp only [cxSenv, rxKenv, beq_self_eq_true, Bool.true_and, Bool.or_eq_true, beq_iff_eq]
+    rcases hk with rfl | rfl
+    · exact Or.inl rfl
+    · exact Or.inr rfl
+  knows := by
+    intro kind h hk
+    simp only [rxWorld, beq_iff_eq] at hk
+    subst hk
+    refine ⟨List.replicate 32 1, closed_available cx_closed _ (Or.inl (by simp)), by simp, ?_⟩
+    simp only [cxSenv, rxKenv]
+    have : List.replicate 32 (1 : UInt8) ≠ List.replicate 32 2 := by decide
+    simp [this]
+  publicData :=
+    ⟨cx_avail_of_len _ (by simp), cx_avail_of_len _ (by simp),
+     closed_available cx_closed _ (Or.inl (by simp)),
+     fun k => cx_avail_of_len _ (by simp [rxKenv, rxSer_len])⟩
+  zeroNoPreimage := by
+    intro kind h hh
+    simp only [cxSenv, rxKenv] at hh
+    have : List.replicate 32 (0 : UInt8) ≠ List.replicate 32 2 := by decide
+    simp only [beq_iff_eq, this, if_false] at hh
+    have h0 := congrArg (fun l => l.head?) hh
+    by_cases a : h = 0 <;> simp [List.replicate, a] at h0
+
+/-- the hash atom 1 is committed (`2^32`), its preimage is unknown in `rxWorld`, and in the closed
+environment NO byte string hashes to it -/
+theorem cx_unknown_preimage :
+    rxWorld.preimage .sha256 1 = false ∧ ∀ x, cxSenv.hash .sha256 x ≠ rxKenv.hashVal .sha256 1 := by
+  refine ⟨rfl, fun x hh => ?_⟩
+  simp only [cxSenv, rxKenv] at hh
+  split at hh
+  · have := congrArg List.length hh; simp at this
+  · rename_i hx
+    simp only [beq_iff_eq] at hx
+    exact hx (by simpa using hh)
+
+/-- `lift_exact` applies to the script with a threshold, a hash and a lock -/
+example :
+    holds rxWorld (.thresh 2 [.thresh 2 [.atom (.key 0), .atom (.key 1), .atom (.hash .sha256 0)],
+                   .atom (.older 144)]) = true
+      ↔ ∃ wit : List Bytes, Script.accepts cxSenv (encode rxKenv .segwitv0 rxMs) wit = true :=
+  lift_exact rxKenv .segwitv0 rxMs _ ⟨⟨.B, .any, false, false⟩, ⟨.none, true, false⟩⟩ cxSenv rxWorld
+    (by rfl) (by decide) rfl
+    (by simp [rxMs, SatSpec.WF, SatSpec.WFs, MsList.length])
+    ⟨by decide, by decide, by decide, by decide, by decide⟩ (by decide)
+    (by simp [rxMs, C02.SmallScript, Complete.itemBound, Complete.itemBounds])
+    cx_realises cx_closed
+
+/-- table level (no execution hypotheses at all): the `_partial` form of `lift_exact_full` -/
 theorem lift_exact_partial (env : KeyEnv) (ctx : Ctx) (ms : Ms) (p : Policy) (τ : Ty)
     (h : lift env ctx ms = .ok p) (ht : typeOf ms = some τ) (W : World) :
     holds W p = true ↔ satEx (availOfWorld W) ms = true := by
